@@ -162,4 +162,36 @@ theorem source_code_match :
 /-- the trait impls and `NewBlockCipher::new` (re-export of `CC.Thm.C10.source_glue_match`) -/
 theorem source_glue_match : type_of% @CC.Thm.C10.source_glue_match := CC.Thm.C10.source_glue_match
 
+/-- **End to end (regenerated code = published specification).**  Only REGENERATED definitions (`CC.Gen.Kernels.*`, printed
+    from block-ciphers/threefish/src/lib.rs on every run) and the Skein 1.3 specification occur in this statement — no
+    hand-written model: for the three `impl_threefish!` instantiations and both expansions of `unroll8!` (default and feature
+    `no_unroll`), `with_tweak(key, t0, t1).encrypt_block(block)` is `Spec.threefish` on every key, tweak and block.
+    (`threefish_conforms` rewritten with `CC.Src.src_threefish*_with_tweak` / `…_encrypt_block[_no_unroll]`.) -/
+theorem generated_encrypt_conforms (key : List (BitVec 8)) (t0 t1 : BitVec 64) (blk : List (BitVec 8)) :
+    CC.Gen.Kernels.threefish256_encrypt_block (CC.Gen.Kernels.threefish256_with_tweak key t0 t1) blk
+      = Spec.threefish 4 key t0 t1 blk ∧
+    CC.Gen.Kernels.threefish256_encrypt_block_no_unroll (CC.Gen.Kernels.threefish256_with_tweak key t0 t1) blk
+      = Spec.threefish 4 key t0 t1 blk ∧
+    CC.Gen.Kernels.threefish512_encrypt_block (CC.Gen.Kernels.threefish512_with_tweak key t0 t1) blk
+      = Spec.threefish 8 key t0 t1 blk ∧
+    CC.Gen.Kernels.threefish512_encrypt_block_no_unroll (CC.Gen.Kernels.threefish512_with_tweak key t0 t1) blk
+      = Spec.threefish 8 key t0 t1 blk ∧
+    CC.Gen.Kernels.threefish1024_encrypt_block (CC.Gen.Kernels.threefish1024_with_tweak key t0 t1) blk
+      = Spec.threefish 16 key t0 t1 blk ∧
+    CC.Gen.Kernels.threefish1024_encrypt_block_no_unroll (CC.Gen.Kernels.threefish1024_with_tweak key t0 t1) blk
+      = Spec.threefish 16 key t0 t1 blk := by
+  refine ⟨?_, ?_, ?_, ?_, ?_, ?_⟩
+  · rw [← CC.Src.src_threefish256_encrypt_block, ← CC.Src.src_threefish256_with_tweak]
+    exact threefish_conforms .unrolled tf256 (by simp) key t0 t1 blk
+  · rw [← CC.Src.src_threefish256_encrypt_block_no_unroll, ← CC.Src.src_threefish256_with_tweak]
+    exact threefish_conforms .loop tf256 (by simp) key t0 t1 blk
+  · rw [← CC.Src.src_threefish512_encrypt_block, ← CC.Src.src_threefish512_with_tweak]
+    exact threefish_conforms .unrolled tf512 (by simp) key t0 t1 blk
+  · rw [← CC.Src.src_threefish512_encrypt_block_no_unroll, ← CC.Src.src_threefish512_with_tweak]
+    exact threefish_conforms .loop tf512 (by simp) key t0 t1 blk
+  · rw [← CC.Src.src_threefish1024_encrypt_block, ← CC.Src.src_threefish1024_with_tweak]
+    exact threefish_conforms .unrolled tf1024 (by simp) key t0 t1 blk
+  · rw [← CC.Src.src_threefish1024_encrypt_block_no_unroll, ← CC.Src.src_threefish1024_with_tweak]
+    exact threefish_conforms .loop tf1024 (by simp) key t0 t1 blk
+
 end CC.Thm.C09
